@@ -113,7 +113,10 @@ def run_sequence(name, mk, mode, prob, seed, batches, restarts, order='in', ctor
     for s in sugg:
       tid += 1
       t = s.to_trial(tid)
-      t.complete(vz.Measurement({m.name: v for m, v in zip(prob.metric_information, objective(s.parameters, nm))}))
+      vals = list(objective(s.parameters, nm))
+      if name == 'nsga2' and tid % 5 == 2:
+        vals[-1] = float('-inf')        # a diverged run: an infinite objective value stays in the population for a while
+      t.complete(vz.Measurement({m.name: v for m, v in zip(prob.metric_information, vals)}))
       pending.append(t)
   return out, load_diffs, d
 
